@@ -135,16 +135,24 @@ var enumThorough bool
 func randomEnumCases(n int) []enumCase {
 	rng := rand.New(rand.NewSource(Seed*32452843 + 29))
 	var out []enumCase
-	names := []string{"Red", "Green", "Blue", "Alpha", "Teal"}
 	for i := 0; i < n; i++ {
+		names := []string{"Red", "Green", "Blue", "Alpha", "Teal"}
 		under := []string{"int", "uint8", "int64", "string", "int32"}[rng.Intn(5)]
 		tunder := under
 		if rng.Intn(4) == 0 {
 			tunder = []string{"int", "string"}[rng.Intn(2)]
 		}
+		big := rng.Intn(3) == 0
 		lit := func(u string, v int) string {
-			if u == "string" {
+			switch {
+			case u == "string":
 				return fmt.Sprintf("%q", fmt.Sprintf("v%d", v))
+			case big && u == "int64":
+				// neighbours far beyond 2^53 (not representable as distinct float64 values), both signs
+				if v%2 == 0 {
+					return fmt.Sprint(int64(1)<<62 + int64(v))
+				}
+				return fmt.Sprint(-(int64(1) << 61) - int64(v))
 			}
 			return fmt.Sprint(v)
 		}
@@ -186,12 +194,61 @@ func randomEnumCases(n int) []enumCase {
 				mapping["Alias"] = mapping[names[0]]
 			}
 		}
-		out = append(out, enumCase{Name: fmt.Sprintf("rnd%02d", i), Src: src, Tgt: tgt, Lines: lines, Mapping: mapping})
+		var extraConv []string
+		if rng.Intn(3) == 0 {
+			// exclude lines that each match only the package or only the type name of this enum
+			extraConv = []string{"enum:exclude corpus/GRP/pfxsrc:Nope", "enum:exclude corpus/GRP/elsewhere:Color"}
+		}
+		if rng.Intn(3) == 0 {
+			// names related by a transformer instead of equality: S_Some_Name -> SSomeName (the pattern matches
+			// several times per name); explicit enum:map lines keep precedence
+			ren := func(n string) string { return "S_" + n + "_X" }
+			tren := func(n string) string { return "S" + n + "X" }
+			for j := range src.Members {
+				src.Members[j].Name = ren(src.Members[j].Name)
+			}
+			for j := range tgt.Members {
+				tgt.Members[j].Name = tren(tgt.Members[j].Name)
+			}
+			m2 := map[string]string{}
+			for a, b := range mapping {
+				if isAction(b) {
+					m2[ren(a)] = b
+				} else {
+					m2[ren(a)] = tren(b)
+				}
+			}
+			mapping = m2
+			for li, l := range lines {
+				f := strings.Fields(l)
+				t := f[2]
+				if !isAction(t) {
+					t = tren(t)
+				}
+				lines[li] = "enum:map " + ren(f[1]) + " " + t
+			}
+			lines = append([]string{`enum:transform regex _([A-Z]) $1`}, lines...)
+			names = []string{ren("Red"), ren("Green"), ren("Blue"), ren("Alpha"), ren("Teal")}
+		}
+		out = append(out, enumCase{Name: fmt.Sprintf("rnd%02d", i), Src: src, Tgt: tgt, Lines: lines, Mapping: mapping, ExtraConv: extraConv})
 		// mutants
+		if len(src.Members) > 0 && src.Members[len(src.Members)-1].Val == src.Members[0].Val && !isAction(mapping[src.Members[0].Name]) && rng.Intn(2) == 0 {
+			al := src.Members[len(src.Members)-1].Name
+			var l2 []string
+			for _, l := range lines {
+				if !strings.HasPrefix(l, "enum:map "+al+" ") {
+					l2 = append(l2, l)
+				}
+			}
+			out = append(out, enumCase{Name: fmt.Sprintf("rnd%02d_fail_aliasaction", i), Src: src, Tgt: tgt, Lines: append(l2, "enum:map "+al+" @ignore"), Mapping: mapping, Fail: "members with equal values: one maps to a target member, the other to an action", ExtraConv: extraConv})
+		}
 		switch rng.Intn(3) {
 		case 0:
 			bad := src
-			bad.Members = append(append([]enumMember{}, src.Members...), enumMember{"Orphan", lit(under, 77)})
+			bad.Members = append(append([]enumMember{}, src.Members...), enumMember{"Orphan", lit("int", 77)})
+			if under == "string" {
+				bad.Members[len(bad.Members)-1].Val = `"orphan"`
+			}
 			out = append(out, enumCase{Name: fmt.Sprintf("rnd%02d_fail_orphan", i), Src: bad, Tgt: tgt, Lines: lines, Mapping: mapping, Fail: "source member Orphan has no target"})
 		case 1:
 			out = append(out, enumCase{Name: fmt.Sprintf("rnd%02d_fail_unknownkey", i), Src: src, Tgt: tgt, Lines: append(append([]string{}, lines...), "enum:map Nope "+names[0]), Mapping: mapping, Fail: "enum:map key Nope does not exist"})
